@@ -56,7 +56,7 @@ def stimuli(tier, seed, ctx):
     nobj = len(make_objs())
     out = []
     for _ in range(700 if tier == 'quick' else 12000):
-        kind = rnd.choice(['s', 'i', 'c'])
+        kind = rnd.choice(['s', 'i', 'c', 'a'])      # a = a sequential block with the async-init add-on
         hist = [rnd.randint(1, nobj) for _ in range(rnd.randint(1, 12))]
         out.append({'kind': kind, 'on_output': _rand_events(rnd, rnd.randint(0, 3)),
                     'on_every': _rand_events(rnd, rnd.randint(0, 3)) if kind != 'c' else [],
@@ -116,6 +116,9 @@ def execute(stim):
         def _event_set(self, *, value, **_data):
             self.set_output(value)
 
+    class SndA(edzed.AddonAsyncInit, Snd):
+        """like ValuePoll: set_output() is overridden by the add-on"""
+
     def events(lst):
         evs = [edzed.Event(f'd{e["dest"]}', e['etype'],
                            efilter=[_mk_filter(f, edzed) for f in e['filters']]) for e in lst]
@@ -133,6 +136,10 @@ def execute(stim):
         first = objs[stim['hist'][0] - 1]
         if kind == 's':
             snd = Snd('snd', on_output=events(stim['on_output']), on_every_output=events(stim['on_every']))
+            target = snd
+        elif kind == 'a':
+            snd = SndA('snd', init_timeout=0, on_output=events(stim['on_output']),
+                       on_every_output=events(stim['on_every']))
             target = snd
         elif kind == 'i':
             snd = edzed.Input('snd', initdef=first, on_output=events(stim['on_output']),
@@ -154,7 +161,7 @@ def execute(stim):
                     'late': 0})
         for v in stim['hist'][1:]:
             del got[:]
-            etype = 'set' if kind == 's' else 'put'
+            etype = 'set' if kind in ('s', 'a') else 'put'
             try:
                 edzed.ExtEvent(target, etype).send(objs[v - 1])
             except edzed.EdzedError:
